@@ -326,3 +326,198 @@ def _(repo):
     return (f"(* index variable {idxname}; tables {srcs}; keys {keys} *)\n"
             f"Definition gen_obs_gather_same_indices : bool := {'true' if ok else 'false'}.\n"
             f"Definition gen_multi_obs_wiring : bool := {'true' if mok else 'false'}.")
+
+
+# =============================================================== G_rar (C16, C17)
+header("G_rar", ZHDR)
+RENV = {"data.rar_parameters['start_iter']": "start", "data.rar_parameters['update_every']": "every",
+        "rar_parameters['update_every']": "every",
+        "data.rar_iter_from_last_sampling": "cnt", "data.rar_iter_nb": "J", "i": "i",
+        "jnp.count_nonzero(data.p_times == 0)": "zeros", "jnp.count_nonzero(data.p_omega == 0)": "zeros",
+        "data.rar_parameters['selected_sample_size_times']": "sel", "data.rar_parameters['selected_sample_size_omega']": "sel"}
+
+
+def wrap(stmts):
+    return ast.Module(body=list(stmts), type_ignores=[])
+
+
+@anchor("G_rar", "proceed")
+def _(repo):
+    f = find_func(parse(repo, RAR), "_proceed_to_rar")
+    cl = one(assigns(f, "check_list"), "check_list")
+    if not isinstance(cl, ast.List) or len(cl.elts) != 2:
+        raise Untranslatable("check_list is not a two-element list")
+    out = [f"Definition gen_rar_burnin_ok (start i : Z) : bool := {zexpr(cl.elts[0], RENV)}.",
+           f"Definition gen_rar_period_ok (every cnt : Z) : bool := {zexpr(cl.elts[1], RENV)}."]
+    ifs = [s for s in f.body if isinstance(s, ast.If)]
+    if len(ifs) != 2:
+        raise Untranslatable("expected two capacity blocks")
+    want = {"t": "isinstance(data, (DataGeneratorODE, CubicMeshPDENonStatio))", "x": "isinstance(data, (CubicMeshPDEStatio, CubicMeshPDENonStatio))"}
+    for s, d in zip(ifs, ("t", "x")):
+        if ast.unparse(s.test) != want[d]:
+            raise Untranslatable("capacity block guarded by " + ast.unparse(s.test))
+        c = one(calls_to(wrap(s.body), "check_list.append"), "append")
+        out.append(f"Definition gen_rar_capacity_ok_{d} (sel zeros : Z) : bool := {zexpr(c.args[0], RENV)}.")
+    pr = ast.unparse(one(assigns(f, "proceed"), "proceed"))
+    if pr != "jnp.all(jnp.array(check_list))" or ast.unparse(one(returns(f), "return")) != "proceed":
+        raise Untranslatable("proceed is not the conjunction of check_list")
+    t = find_func(parse(repo, RAR), "trigger_rar")
+    c = one(calls_to(t, "jax.lax.cond"), "cond in trigger_rar")
+    ok = [ast.unparse(a) for a in c.args] == ["_proceed_to_rar(data, i)", "_rar_step_true", "_rar_step_false", "(loss, params, data, i)"]
+    out.append(f"Definition gen_rar_trigger_wiring : bool := {'true' if ok else 'false'}.")
+    return "\n".join(out)
+
+
+@anchor("G_rar", "step_false")
+def _(repo):
+    f = find_func(parse(repo, RAR), "rar_step_false")
+    c = one(calls_to(f, "jax.lax.cond"), "cond")
+    if len(c.args) != 3 or not all(isinstance(a, ast.Lambda) for a in c.args[1:]):
+        raise Untranslatable("increment is not cond(test, lambda: a, lambda: b)")
+    inc = f"(if {zexpr(c.args[0], RENV)} then {zexpr(c.args[1].body, RENV)} else {zexpr(c.args[2].body, RENV)})"
+    new = one(assigns(f, "new_rar_iter_from_last_sampling"), "new counter")
+    e = zexpr(new, dict(RENV, increment="incr"))
+    return (f"Definition gen_rar_incr (i start : Z) : Z := {inc}.\n"
+            f"Definition gen_rar_count (cnt incr : Z) : Z := {e}.")
+
+
+@anchor("G_rar", "init")
+def _(repo):
+    f = find_func(parse(repo, RAR), "init_rar")
+    ta = [c for c in calls_to(f, "eqx.tree_at") if "rar_iter_from_last_sampling" in ast.unparse(c.args[0])]
+    c = one(ta, "tree_at on the counter")
+    g = find_func(parse(repo, DG), "_check_and_set_rar_parameters")
+    i0 = one([s for s in g.body if isinstance(s, ast.If) and ast.unparse(s.test) == "rar_parameters is not None" and s.orelse], "rar block")
+    cnt0 = one(assigns(wrap(i0.body), "rar_iter_from_last_sampling"), "ctor counter")
+    j0 = one(assigns(wrap(i0.body), "rar_iter_nb"), "ctor step number")
+    ps = [ast.unparse(v) for v in assigns(wrap(i0.body), "p")]
+    if ps != ["jnp.zeros((n,))", "p.at[:n_start].set(1 / n_start)"]:
+        raise Untranslatable("initial p built differently: " + str(ps))
+    return (f"Definition gen_rar_init_counter (every : Z) : Z := {zexpr(c.args[2], RENV)}.\n"
+            f"Definition gen_rar_ctor_counter (every : Z) : Z := {zexpr(cnt0, RENV)}.\n"
+            f"Definition gen_rar_ctor_step : Z := {zexpr(j0, RENV)}.\n"
+            f"(* p = zeros(n).at[:n_start].set(1 / n_start) *)\nDefinition gen_rar_ctor_active (n_start : Z) : Z := n_start.")
+
+
+def _branch(fn, test_src):
+    for s in ast.walk(fn):
+        if isinstance(s, ast.If):
+            cur = s
+            while True:
+                if ast.unparse(cur.test) == test_src:
+                    return cur.body
+                if len(cur.orelse) == 1 and isinstance(cur.orelse[0], ast.If):
+                    cur = cur.orelse[0]
+                else:
+                    break
+    raise Untranslatable("branch not found: " + test_src)
+
+
+def _dus(body, arr):
+    """the dynamic_update_slice whose first argument is `arr`"""
+    return one([c for c in calls_to(wrap(body), "jax.lax.dynamic_update_slice") if ast.unparse(c.args[0]) == arr], f"dynamic_update_slice on {arr}")
+
+
+def _single_dim(kind, body, store, p, nstart):
+    env = {f"data.{nstart}": "n_start", "data.rar_iter_nb": "J", "selected_sample_size": "sel", "i": "k",
+           "mse_on_s.shape[0]": "ncand"}
+    out = []
+    u = _dus(body, f"data.{store}")
+    out.append(f"Definition gen_rar_offset_{kind} (n_start J sel : Z) : Z := {zexpr(u.args[2].elts[0], env)}.")
+    pre = [v for v in assigns(wrap(body), f"new_p_{'times' if p == 'p_times' else 'omega'}") if isinstance(v, ast.Call) and ".at[" in ast.unparse(v)]
+    pv = one(pre, "prefix set of p")
+    sl = pv.func.value.slice  # p.at[: n_start].set
+    if not (isinstance(sl, ast.Slice) and sl.lower is None and ast.unparse(pv.func.value.value.value) == f"data.{p}"):
+        raise Untranslatable("prefix update changed: " + ast.unparse(pv))
+    out.append(f"Definition gen_rar_pprefix_{kind} (n_start : Z) : Z := {zexpr(sl.upper, env)}.")
+    us = one([n for n in ast.walk(wrap(body)) if isinstance(n, ast.FunctionDef) and n.name == "update_slices"], "update_slices")
+    d = one(calls_to(us, "jax.lax.dynamic_update_slice"), "slice update of p")
+    if ast.unparse(d.args[0]) != "p" or "jnp.ones((selected_sample_size,))" not in ast.unparse(d.args[1]):
+        raise Untranslatable("p slice update changed")
+    out.append(f"Definition gen_rar_pslice_start_{kind} (n_start k sel : Z) : Z := {zexpr(d.args[2].elts[0], env)}.")
+    fl = one(calls_to(wrap(body), "jax.lax.fori_loop"), "fori_loop")
+    hi = inline_locals(fl.args[1], wrap(body))
+    if ast.unparse(fl.args[2]) != "update_slices" or ast.unparse(fl.args[3]) != f"data.{p}":
+        raise Untranslatable("fori_loop wiring changed")
+    out.append(f"Definition gen_rar_ploop_lo_{kind} : Z := {zexpr(fl.args[0], env)}.")
+    out.append(f"Definition gen_rar_ploop_hi_{kind} (J : Z) : Z := {zexpr(hi, env)}.")
+    nj = one(assigns(wrap(body), "new_rar_iter_nb"), "new step number")
+    out.append(f"Definition gen_rar_newJ_{kind} (J : Z) : Z := {zexpr(nj, env)}.")
+    ds = one(calls_to(wrap(body), "jax.lax.dynamic_slice"), "selection slice")
+    if ast.unparse(ds.args[0]) != "jnp.argsort(mse_on_s)" or ast.unparse(ds.args[2]) != "(selected_sample_size,)":
+        raise Untranslatable("selection changed: " + ast.unparse(ds)[:80])
+    out.append(f"Definition gen_rar_select_start_{kind} (ncand sel : Z) : Z := {zexpr(ds.args[1].elts[0], env)}.")
+    hp = ast.unparse(one(assigns(wrap(body), "higher_residual_points"), "chosen points"))
+    out.append(f"Definition gen_rar_select_wiring_{kind} : bool := {'true' if hp == 'new_omega_samples[higher_residual_idx]' and ast.unparse(u.args[1]) == 'higher_residual_points' else 'false'}.")
+    return "\n".join(out)
+
+
+@anchor("G_rar", "step_true_ode")
+def _(repo):
+    f = find_func(parse(repo, RAR), "rar_step_true")
+    return _single_dim("ode", _branch(f, "isinstance(data, DataGeneratorODE)"), "times", "p_times", "nt_start")
+
+
+@anchor("G_rar", "step_true_statio")
+def _(repo):
+    f = find_func(parse(repo, RAR), "rar_step_true")
+    return _single_dim("statio", _branch(f, "isinstance(data, CubicMeshPDEStatio) and (not isinstance(data, CubicMeshPDENonStatio))"), "omega", "p_omega", "n_start")
+
+
+@anchor("G_rar", "step_true_nonstatio")
+def _(repo):
+    f = find_func(parse(repo, RAR), "rar_step_true")
+    body = _branch(f, "isinstance(data, CubicMeshPDENonStatio)")
+    env = {"data.nt_start": "nt_start", "data.n_start": "n_start", "data.rar_iter_nb": "J",
+           "selected_sample_size_times": "sel_t", "selected_sample_size_omega": "sel_x", "i": "k",
+           "start": "start", "selected_sample_size": "sel"}
+    out = []
+    ut, ux = _dus(body, "data.times"), _dus(body, "data.omega")
+    out.append(f"Definition gen_rar_offset_ns_t (nt_start n_start J sel_t sel_x : Z) : Z := {zexpr(ut.args[2].elts[0], env)}.")
+    out.append(f"Definition gen_rar_offset_ns_x (nt_start n_start J sel_t sel_x : Z) : Z := {zexpr(ux.args[2].elts[0], env)}.")
+    src = ast.unparse(wrap(body))
+    pre_t = "data.p_times.at[:data.nt_start].set(new_p_times)" in src
+    pre_x = "data.p_omega.at[:data.n_start].set(new_p_omega)" in src
+    out.append(f"Definition gen_rar_pprefix_ns_t (nt_start n_start : Z) : Z := {'nt_start' if pre_t else 'n_start' if 'data.p_times.at[:data.n_start]' in src else '(-1)'}.")
+    out.append(f"Definition gen_rar_pprefix_ns_x (nt_start n_start : Z) : Z := {'n_start' if pre_x else 'nt_start' if 'data.p_omega.at[:data.nt_start]' in src else '(-1)'}.")
+    cus = one([n for n in ast.walk(wrap(body)) if isinstance(n, ast.FunctionDef) and n.name == "create_update_slices"], "create_update_slices")
+    params = [a.arg for a in cus.args.args]
+    d = one(calls_to(cus, "jax.lax.dynamic_update_slice"), "slice update of p")
+    start_e = d.args[2].elts[0]
+    mk = {}
+    for nm, which in (("update_slices_times", "t"), ("update_slices_omega", "x")):
+        c = one(assigns(wrap(body), nm), nm)
+        if ast.unparse(c.func) != "create_update_slices" or len(c.args) != len(params):
+            raise Untranslatable("create_update_slices call changed")
+        sub = dict(zip(params, c.args))
+        e2 = copy.deepcopy(start_e)
+
+        class S(ast.NodeTransformer):
+            def visit_Name(self, n):
+                return copy.deepcopy(sub[n.id]) if n.id in sub else n
+        e2 = S().visit(e2)
+        out.append(f"Definition gen_rar_pslice_start_ns_{which} (nt_start n_start k sel_t sel_x : Z) : Z := {zexpr(e2, env)}.")
+    for nm, which, p in (("update_slices_times", "t", "data.p_times"), ("update_slices_omega", "x", "data.p_omega")):
+        fl = one([c for c in calls_to(wrap(body), "jax.lax.fori_loop") if ast.unparse(c.args[2]) == nm], "fori_loop " + nm)
+        if ast.unparse(fl.args[3]) != p:
+            raise Untranslatable("fori_loop initial value changed")
+        hi = inline_locals(fl.args[1], wrap(body))
+        out.append(f"Definition gen_rar_ploop_lo_ns_{which} : Z := {zexpr(fl.args[0], env)}.")
+        out.append(f"Definition gen_rar_ploop_hi_ns_{which} (J : Z) : Z := {zexpr(hi, env)}.")
+    nj = one(assigns(wrap(body), "new_rar_iter_nb"), "new step number")
+    out.append(f"Definition gen_rar_newJ_ns (J : Z) : Z := {zexpr(nj, env)}.")
+    tk = one(calls_to(wrap(body), "jax.lax.top_k"), "top_k")
+    sel_ok = (ast.unparse(tk.args[0]) == "mse_on_s.flatten()" and ast.unparse(kwarg(tk, "k")) == "n_select"
+              and ast.unparse(one(assigns(wrap(body), "n_select"), "n_select")) == "max(selected_sample_size_times, selected_sample_size_omega)"
+              and ast.unparse(one(assigns(wrap(body), "arr_idx"), "arr_idx")) == "jnp.unravel_index(idx, mse_on_s.shape)"
+              and ast.unparse(one(assigns(wrap(body), "times_idx"), "times_idx")) == "arr_idx[0][:selected_sample_size_times]"
+              and ast.unparse(one(assigns(wrap(body), "omega_idx"), "omega_idx")) == "arr_idx[1][:selected_sample_size_omega]"
+              and ast.unparse(one(assigns(wrap(body), "higher_residual_points_times"), "hrt")) == "new_times_samples[times_idx]"
+              and ast.unparse(one(assigns(wrap(body), "higher_residual_points_omega"), "hro")) == "new_omega_samples[omega_idx]"
+              and ast.unparse(ut.args[1]) == "higher_residual_points_times" and ast.unparse(ux.args[1]) == "higher_residual_points_omega")
+    out.append(f"Definition gen_rar_select_wiring_ns : bool := {'true' if sel_ok else 'false'}.")
+    # counter reset common to all branches
+    tail = [c for c in calls_to(f, "eqx.tree_at") if "rar_iter_from_last_sampling" in ast.unparse(c.args[0])]
+    c = one(tail, "counter reset")
+    out.append(f"Definition gen_rar_step_counter : Z := {zexpr(c.args[2], env)}.")
+    return "\n".join(out)
